@@ -561,6 +561,8 @@ func c16(c *Ctx) {
 			r.Fatalf("anchor %s missing", nme)
 		}
 	}
+	// fragment counts and sizes must not be computed in arithmetic that can wrap (uint16 sums of a length and the MTU)
+	c.wrapScope = map[string]bool{"codecs.(*G711Payloader).Payload": true, "codecs.(*G722Payloader).Payload": true}
 	boundsFor(c, "C16", entries)
 }
 
